@@ -182,6 +182,28 @@ CURATED = [
     ("Table", "get_values beyond", lambda t: t.get_values((0, 0, 60, 60))),
     ("Table", "get_cell far", lambda t: t.get_cell((40, 40))),
     ("Table", "get_row far", lambda t: t.get_row(60)),
+    # questions about what lies just at / beyond the end of the table
+    ("Table", "get_row_values(height)", lambda t: t.get_row_values(t.height)),
+    ("Table", "get_row_values(height+3)", lambda t: t.get_row_values(t.height + 3)),
+    ("Table", "is_row_empty(height)", lambda t: t.is_row_empty(t.height)),
+    ("Table", "is_row_empty(height+2)", lambda t: t.is_row_empty(t.height + 2, aggressive=True)),
+    ("Table", "get_row_sub_elements(height)", lambda t: t.get_row_sub_elements(t.height)),
+    ("Table", "get_row(height)", lambda t: t.get_row(t.height)),
+    ("Table", "get_column_values(width)", lambda t: t.get_column_values(t.width)),
+    ("Table", "is_column_empty(width)", lambda t: t.is_column_empty(t.width)),
+    ("Table", "get_column(width)", lambda t: t.get_column(t.width)),
+    ("Table", "get_column_cells(width+1)", lambda t: t.get_column_cells(t.width + 1)),
+    ("Table", "get_cell(width,height)", lambda t: t.get_cell((t.width, t.height))),
+    ("Table", "get_value(width,height)", lambda t: t.get_value((t.width, t.height))),
+    ("Table", "get_values(cell_type)", lambda t: t.get_values(cell_type="all", complete=False)),
+    ("Table", "get_values(get_type)", lambda t: t.get_values(get_type=True, flat=True)),
+    ("Table", "iter_values()", lambda t: list(t.iter_values())),
+    ("Table", "get_cells(style)", lambda t: t.get_cells(style="ce1", flat=True)),
+    ("Table", "get_columns(style)", lambda t: t.get_columns(style="co1")),
+    ("Table", "get_rows(style)", lambda t: t.get_rows(style="ro1")),
+    ("Row", "get_values(cell_type)", lambda r: r.get_values(cell_type="all", complete=False, get_type=True)),
+    ("Row", "get_sub_elements()", lambda r: r.get_sub_elements()),
+    ("Row", "last_cell()", lambda r: r.last_cell()),
     ("Row", "get_values()", lambda r: r.get_values()),
     ("Row", "get_cell(0)", lambda r: r.get_cell(0)),
     ("Row", "get_cells()", lambda r: r.get_cells()),
